@@ -332,4 +332,4 @@ def export_geogram_ascii(mesh : RawMeshData, path):
             for attr_key in mesh.cell_faces.attributes:
                 if attr_key=="adjacent_cell" : continue
                 attr = mesh.cell_faces.get_attribute(attr_key)
-                export_attribute(f, n_cell_faces, "GEO::Mesh::cell_faces", attr, attr_key)
+                export_attribute(f, n_cell_faces, "GEO::Mesh::cell_facets", attr, attr_key)
